@@ -1,7 +1,7 @@
 #!/bin/bash
 # usage: verify_seed.sh <PROP> <N> <name>   -- confirms a sub-agent's mutant in a scratch worktree and files it under /verif/seeded/<name>
 P=$1; N=$2; NAME=$3
-SRC=/tmp/seeded_out/$P
+SRC=${SEED_SRC:-/tmp/seeded_out}/$P
 WT=/tmp/wt/verify_$NAME
 git -C /repo worktree add --detach $WT HEAD >/dev/null 2>&1 || { echo "cannot create worktree"; exit 2; }
 cd $WT
